@@ -14,10 +14,11 @@ Proof.
   reflexivity.
 Qed.
 
-Lemma wf_msg_v2_inv m : wf_msg_v2 m = true -> hm_type m < 256 /\ 1 <= blen (hm_data m).
+Lemma wf_msg_v2_inv m : wf_msg_v2 m = true -> hm_type m < 256 /\ 1 <= blen (hm_data m) /\ (hm_type m =? MSG_CONT) = false.
 Proof.
-  unfold wf_msg_v2. intros H. apply andb_true_iff in H as [H _]. apply andb_true_iff in H as [H1 H2].
-  apply N.ltb_lt in H1. apply N.leb_le in H2. auto.
+  unfold wf_msg_v2. intros H. apply andb_true_iff in H as [H _]. apply andb_true_iff in H as [H H2].
+  apply andb_true_iff in H as [H1 H3].
+  apply N.ltb_lt in H1. apply N.leb_le in H2. apply negb_true_iff in H3. auto.
 Qed.
 
 (* the message loop returns exactly the written messages *)
@@ -37,7 +38,7 @@ Proof.
     reflexivity.
   - destruct fuel as [|fuel]; [cbn [length] in Hfuel; blia|].
     cbn [forallb] in Hwf. apply andb_true_iff in Hwf as [Hm Hr].
-    apply wf_msg_v2_inv in Hm as [Hty Hd1].
+    apply wf_msg_v2_inv in Hm as (Hty & Hd1 & Hnc).
     inversion Hlen as [|? ? Hd2 Hlr]; subst.
     destruct m as [ty data]; cbn [hm_type hm_data] in *.
     assert (Hbody : body_v2 ({| hm_type := ty; hm_data := data |} :: r)
@@ -82,7 +83,7 @@ Proof.
     rewrite F3 at 1.
     rewrite (slice_app' (pre ++ [ty] ++ le 2 (blen data) ++ [0]) data (body_v2 r ++ suf))
       by (rewrite ?blen_app, ?blen_le; unfold blen; cbn [length]; blia).
-    cbn [obind].
+    cbn [obind]. rewrite Hnc.
     (* rest *)
     rewrite F4.
     rewrite <- Hp.
